@@ -241,9 +241,9 @@ PLAN["C01"] = {
         _c01_gen("gen_kp_kp_ep_white_complete", 1, 8, ('thorough',), 3600, 13, 12),
         _c01_gen("gen_kp_kp_ep_black_sound", 1, 8, ('thorough',), 3600, 13, 12),
         _c01_gen("gen_kp_kp_ep_black_complete", 1, 8, ('thorough',), 3600, 13, 12),
-        _c01_gen("gen_castle_white_sound", 2, 14, ('quick', 'thorough'), 3600, 7, 40),
+        _c01_gen("gen_castle_white_sound", 2, 14, ('thorough',), 3600, 7, 40),
         _c01_gen("gen_castle_white_complete", 2, 14, ('quick', 'thorough'), 3600, 7, 40),
-        _c01_gen("gen_castle_black_sound", 2, 14, ('quick', 'thorough'), 3600, 7, 40),
+        _c01_gen("gen_castle_black_sound", 2, 14, ('thorough',), 3600, 7, 40),
         _c01_gen("gen_castle_black_complete", 2, 14, ('quick', 'thorough'), 3600, 7, 40),
         _c01_gen("gen_q_kp_kn_white_sound", 1, 8, ("thorough",), 3600, 8, 16),
         _c01_gen("gen_q_kp_kn_white_complete", 1, 8, ("thorough",), 3600, 8, 16),
@@ -253,6 +253,13 @@ PLAN["C01"] = {
         _c01_gen("gen_q_kp_kp_ep_white_complete", 1, 8, ("thorough",), 3600, 8, 12),
         _c01_gen("gen_q_kp_kp_ep_black_sound", 1, 8, ("thorough",), 3600, 8, 12),
         _c01_gen("gen_q_kp_kp_ep_black_complete", 1, 8, ("thorough",), 3600, 8, 12),
+        _c01_gen("gen_q_kn_kp_white_sound", 1, 8, ('quick', 'thorough'), 3600, 6, 16),
+        _c01_gen("gen_q_kn_kp_white_complete", 1, 8, ('quick', 'thorough'), 3600, 6, 16),
+        _c01_gen("gen_q_kn_kp_black_complete", 1, 8, ('quick', 'thorough'), 3600, 6, 16),
+        _c01_gen("gen_q_kb_kp_white_complete", 1, 13, ('quick', 'thorough'), 3600, 9, 21),
+        _c01_gen("gen_q_kb_kp_black_sound", 1, 13, ('thorough',), 3600, 9, 21),
+        _c01_gen("gen_q_kq_kp_white_complete", 1, 27, ('thorough',), 5400, 16, 35),
+        _c01_gen("gen_q_kq_kp_black_sound", 1, 27, ('thorough',), 5400, 16, 35),
         _c01_gen("gen_q_kpp_knn_white_sound", 2, 8, ("quick", "thorough"), 3600, 8, 32, 2),
         _c01_gen("gen_q_kpp_knn_white_complete", 2, 8, ("quick", "thorough"), 3600, 8, 32, 2),
         _c01_gen("gen_q_kpp_knn_black_complete", 2, 8, ("quick", "thorough"), 3600, 8, 32, 2),
@@ -261,11 +268,12 @@ PLAN["C01"] = {
         _c01_gen("gen_q_kp_kpn_ep_black_complete", 1, 8, ("thorough",), 3600, 8, 16),
         _c01_gen("gen_q_kpp_kp_ep_white_complete", 2, 8, ("quick", "thorough"), 3600, 8, 24),
         _c01_gen("gen_q_kpp_kp_ep_black_complete", 2, 8, ("quick", "thorough"), 3600, 8, 24),
-        _c01_gen("gen_castle_n_white_sound", 2, 14, ("quick", "thorough"), 3600, 7, 40),
+        _c01_gen("gen_castle_rn_white_sound", 2, 14, ('quick', 'thorough'), 3600, 8, 40),
+        _c01_gen("gen_castle_rn_black_sound", 2, 14, ('quick', 'thorough'), 3600, 8, 40),
+        _c01_gen("gen_castle_n_white_sound", 2, 14, ('thorough',), 3600, 7, 40),
         _c01_gen("gen_castle_n_white_complete", 2, 14, ("thorough",), 3600, 7, 40),
-        _c01_gen("gen_castle_n_black_sound", 2, 14, ("quick", "thorough"), 3600, 7, 40),
+        _c01_gen("gen_castle_n_black_sound", 2, 14, ('thorough',), 3600, 7, 40),
         _c01_gen("gen_castle_n_black_complete", 2, 14, ("thorough",), 3600, 7, 40),
-        _c01_gen("probe_gen_kp_kp_ep_black_complete_fast", 1, 8, ("probe",), 3600, 14, 12),
         Inst("c01::reach_witness", sub="vacuity", unwind=10, nomem=True, timeout=1800, expect="fail",
              unwindset=(("expand_moves", 10), ("compute_pawn_moves", 6), ("compute_knight_moves", 3), ("compute_bishop_moves", 3), ("compute_rook_moves", 3),
                         ("compute_queen_moves", 3), ("compute_king_moves", 4), ("from_occupancy#0", 3), ("from_occupancy#1", 8), ("piece_at#0", 8), ("piece_at#1", 4), ("family", 6))),
